@@ -549,13 +549,10 @@ theorem liquid_keys :
     ∧ LOutField.key false .valueCommitment = [0xfc, 0x08, 0x65, 0x6c, 0x65, 0x6d, 0x65, 0x6e, 0x74, 0x73, 0x00]
     ∧ LOutField.key true .assetProof = [0xfc, 0x04, 0x70, 0x73, 0x65, 0x74, 0x0a] := by decide
 
--- GOAL (not proved): pset_parse_lossless — the whole-PSET statement (global scope, scope counts, version-0 transaction
---   identity) as C04.parse_lossless; the per-scope theorems above are its core, the composition is checked by the
---   correspondence ops `pset.parse` / `pset.roundtrip` / `pset.tx` and the harness predicate on every run. For version 0
---   the transaction identity is FALSE for global transactions with an issuance / peg-in input or a confidential output
---   carrying a nonce (known finding D53).
--- GOAL (not proved): lscope no-duplicate-keys for whole scopes (`(kvs.map canonKey).Nodup`), only the one-step refusal
---   `lscope_duplicate_rejected` is proved.
+-- The whole-PSET composition (`pset_parse_lossless`: framing, scope counts, global scope, version-0 transaction identity
+-- outside the D53 region with the witness `pset_v0_tx_dropped_D53`), key uniqueness for whole scopes in what is read
+-- (`lscope_keys_nodup_input/output`) and in what `write_to` emits (`lscope_written_perm_input/output`: the emitted
+-- pairs are a permutation of the pairs read) are proved in Props/C18X.lean.
 
 /-! ## 7. blech32 and confidential addresses -/
 
@@ -586,8 +583,8 @@ theorem confidential_address_version_ignored (validSec : Bytes → Bool) (hrp ad
     (h : confAddrDecode validSec hrp addr = some (sc, pub)) : sc.head? = some 0x00 :=
   confAddrDecode_version_ignored validSec hrp addr sc pub h
 
--- GOAL (not proved): the base58 branch (`bp2sh` confidential P2SH addresses) — base58check is not modelled in this
---   property (C11's domain); exercised on embit only.
+-- The base58 branch (`bp2sh` confidential and `p2sh` unconfidential addresses, incl. the dispatch of `addr_decode`) is
+-- proved in Props/C18X.lean (`confidential_p2sh_address_roundtrip`, `p2sh_address_roundtrip`).
 
 /-! ## 8. SLIP-77 -/
 
